@@ -78,6 +78,12 @@ POOLS = {
     "log_dB":        dict(objs=[("f", 3.0, "dB", None, None), ("f", 2.0, "dB", None, None)], units=["dB", "B", "AR"]),
     "log_dBm":       dict(objs=[("f", 23.0, "dBm", None, None), ("f", 20.0, "dBm", None, None)],
                           units=["dBm", "mW", "dBW"]),
+    # documented fraction form of logarithmic units (level per Hz): conversion, + and - go through the special
+    # two-unit path of LogarithmicUnitType
+    "log_fraction":       dict(objs=[("f", 10.0, "dBmW/Hz", None, None), ("f", 13.0, "dBmW/Hz", None, None)],
+                               units=["W/Hz", "dBmW/Hz", "mW/Hz"]),
+    "log_fraction_mixed": dict(objs=[("f", 20.0, "dBm/Hz", None, None), ("f", 2.0, "BW/Hz", None, None)],
+                               units=["W/Hz", "dBm/Hz", "dBW/Hz"]),
     "angle":         dict(objs=[("f", 30.0, "deg", None, None), ("f", 0.5, "rad", None, None)],
                           units=["rad", "deg", "mrad"]),
     "percent":       dict(objs=[("f", 50.0, "%", None, None), ("f", 0.25, None, None, None)], units=["%", "ppth", "rad"]),
@@ -112,7 +118,8 @@ POOLS = {
 }
 FEATURES = {
     "same_unit": ["same-unit"], "diff_unit": ["different-unit"], "compound": ["different-unit", "compound-unit"],
-    "log_dB": ["logarithmic"], "log_dBm": ["logarithmic"], "angle": ["angle", "different-unit"],
+    "log_dB": ["logarithmic"], "log_dBm": ["logarithmic"],
+    "log_fraction": ["logarithmic", "fraction-form"], "log_fraction_mixed": ["logarithmic", "fraction-form", "different-unit"], "angle": ["angle", "different-unit"],
     "percent": ["dimensionless-unit"], "plain": ["no-unit"], "decimal_left": ["decimal", "different-unit"],
     "decimal_right": ["decimal", "different-unit"], "decimal_both": ["decimal", "different-unit"],
     "array": ["array", "different-unit"], "array_scalar": ["array", "different-unit"],
@@ -550,8 +557,8 @@ def finish(total, tier, seed):
 
 
 MANIFEST = dict(
-    text="Explicit-state exploration on live Quantity objects: from 21 operand pools (same unit, different unit, "
-         "compound, dB, dBm, angle, percent, plain numbers, Decimal left/right/both, arrays, array+scalar, uncertainties, "
+    text="Explicit-state exploration on live Quantity objects: from 23 operand pools (same unit, different unit, "
+         "compound, dB, dBm, dBmW/Hz and dBm/Hz + BW/Hz fraction forms, angle, percent, plain numbers, Decimal left/right/both, arrays, array+scalar, uncertainties, "
          "arrays with per-element uncertainties (exact / uncertain partner), unit expressions repeating a dimension "
          "(m*cm, km*m, cm*m*dm; scalar, array, with uncertainty) so that rebase() does real work, "
          "temperatures, three operands) every history of length 1 and 2 over the complete alphabet (8 binary operators "
